@@ -21,6 +21,9 @@ import (
 
 var reHex = regexp.MustCompile(`0x[0-9a-fA-F]+`)
 
+// text markers the generator emits: [t03], [inc012], [liblib01] ...
+var reTextMarker = regexp.MustCompile(`\[([a-z]+[0-9]+)\]`)
+
 // Norm rewrites addresses, which differ between two otherwise identical runs.
 func Norm(s string) string {
 	if !strings.Contains(s, "0x") {
@@ -329,6 +332,8 @@ func Vars(d gen.DataSpec, p *Probes) jet.VarMap {
 	})
 	vm.Set("rng", &probeRanger{p: p, items: []string{"ra", "rb"}})
 	vm.Set("plain", &indexlessRanger{items: []string{"pa", "pb"}})
+	vm.Set("plain0", &indexlessRanger{})
+	vm.Set("gofn", func(s string, n int) string { return s })
 	vm.Set("rnd", probeRenderer{p})
 	return vm
 }
@@ -345,7 +350,13 @@ func NewSet(files map[string]string, opts ...jet.Option) (*jet.Set, *jet.InMemLo
 // NewSetCfg builds a Set in one of the configurations C10 moves Runtimes between.
 func NewSetCfg(files map[string]string, cfg int) *jet.Set {
 	if cfg == 1 {
-		s, _ := NewSet(files, jet.WithSafeWriter(nil))
+		// the second Set holds templates of the same names with other texts: a Runtime (or anything it
+		// keeps) that travels from one Set to the other must not bring templates along
+		other := map[string]string{}
+		for p, src := range files {
+			other[p] = reTextMarker.ReplaceAllString(src, "[$1/set2]")
+		}
+		s, _ := NewSet(other, jet.WithSafeWriter(nil))
 		s.AddGlobal("gx", "global-of-set-1")
 		return s
 	}
